@@ -41,7 +41,9 @@ def cfg_text(spec="Spec", constants=None, invariants=(), properties=(),
 
 def _replay_batch(args):
     """Worker: decode and replay a batch of emitted behaviours."""
-    replay, nontrivial, lines, want_sample = args
+    replay, nontrivial, lines, want_sample = args[:4]
+    tally = args[4] if len(args) > 4 else None
+    counts = {}
     n = nt = 0
     bad = []
     sample = None
@@ -52,6 +54,9 @@ def _replay_batch(args):
             nt += 1
         if want_sample and sample is None:
             sample = v
+        if tally is not None:
+            k = tally(v)
+            counts[k] = counts.get(k, 0) + 1
         d = replay(v)
         if d is not None:
             d2 = replay(v)
@@ -59,11 +64,13 @@ def _replay_batch(args):
             d.setdefault("direction", "G")
             d.setdefault("emitted", v)
             bad.append(d)
+    if tally is not None:
+        return n, nt, bad, sample, counts
     return n, nt, bad, sample
 
 
 def run_g(chk, module, cfg, replay, *, nontrivial=None, sample_every=None,
-          workers=6, timeout=1500, extra_files=None, procs=12, batch=1500, **kw):
+          workers=6, timeout=1500, extra_files=None, procs=12, batch=1500, tally=None, **kw):
     """Explore with TLC, replay every emitted behaviour on the real code.
     `replay` and `nontrivial` must be module-level functions (they run in
     forked worker processes)."""
@@ -79,7 +86,7 @@ def run_g(chk, module, cfg, replay, *, nontrivial=None, sample_every=None,
         if buf:
             nb[0] += 1
             want_sample = bool(sample_every) and (nb[0] % max(1, sample_every // batch) == 1)
-            pending.append(pool.apply_async(_replay_batch, ((replay, nontrivial, list(buf), want_sample),)))
+            pending.append(pool.apply_async(_replay_batch, ((replay, nontrivial, list(buf), want_sample, tally),)))
             del buf[:]
 
     def on_raw(line):
@@ -92,7 +99,12 @@ def run_g(chk, module, cfg, replay, *, nontrivial=None, sample_every=None,
                     extra_files=extra_files, **kw)
         flush()
         for p in pending:
-            n, nt, bad, sample = p.get()
+            res = p.get()
+            n, nt, bad, sample = res[:4]
+            if tally is not None:
+                tl = chk.extra.setdefault("tally", {})
+                for k, c in res[4].items():
+                    tl[k] = tl.get(k, 0) + c
             total[0] += n
             chk.evaluations += n
             chk.traces += n
